@@ -20,8 +20,21 @@ import (
 	"verif/engine/internal/sym"
 )
 
-const RepoDir = "/repo"
+// RepoDir is the tree under verification (/repo; VERIF_REPO_DIR overrides it for the self-test on scratch copies).
+var RepoDir = envOr("VERIF_REPO_DIR", "/repo")
+
 const VerifDir = "/verif"
+
+// OutDir receives evidence/ and replays/ (VERIF_OUT_DIR overrides it for the self-test).
+var OutDir = envOr("VERIF_OUT_DIR", VerifDir)
+
+func envOr(k, d string) string {
+	if v := os.Getenv(k); v != "" {
+		return v
+	}
+	return d
+}
+
 const ModPath = "github.com/free5gc/nas"
 
 type World struct {
@@ -64,7 +77,7 @@ func Load() (*World, error) {
 	if nerr > 0 {
 		return nil, fmt.Errorf("/repo does not type-check with -tags=verif (%d errors)", nerr)
 	}
-	prog, spkgs := ssautil.AllPackages(pkgs, ssa.BuilderMode(0))
+	prog, spkgs := ssautil.AllPackages(pkgs, ssa.GlobalDebug)
 	prog.Build()
 	w := &World{Prog: prog, Pkgs: pkgs, SSAPkgs: map[string]*ssa.Package{}, Funcs: map[string]*ssa.Function{}}
 	for i, sp := range spkgs {
@@ -82,6 +95,10 @@ func Load() (*World, error) {
 		w.Funcs[sym.FuncName(fn)] = fn
 	}
 	w.Cx = sym.NewCtx(prog)
+	w.Cx.InstallStdlib()
+	w.Cx.Inline = func(caller, callee *ssa.Function) bool {
+		return callee.Pkg != nil && strings.HasPrefix(callee.Pkg.Pkg.Path(), ModPath)
+	}
 	w.Contracts = contract.NewSet()
 	w.Contracts.Funcs = w.Funcs
 	// contract files
@@ -245,17 +262,19 @@ func Discharge(obls []*sym.Oblig, opt DischargeOpts) []Outcome {
 func solveGroup(name string, g []*sym.Oblig, opt DischargeOpts) Outcome {
 	o0 := g[0]
 	oc := Outcome{Name: name, Kind: o0.Kind, Fn: o0.Fn, Members: len(g), Info: o0.Info, Pos: o0.Pos, Entry: o0.Entry, Cover: o0.Cover}
-	var disj []*smt.Term
+	var disj, slim []*smt.Term
 	seen := map[uint64]bool{}
 	for _, o := range g {
-		var c *smt.Term
+		var c, cs *smt.Term
 		if o.Cover {
 			c = smt.And(o.Assumes...)
+			cs = c
 		} else {
 			if o.Goal.IsTrue() {
 				continue
 			}
 			c = smt.And(append(append([]*smt.Term(nil), o.Assumes...), smt.Not(o.Goal))...)
+			cs = smt.And(append(relevant(o.Assumes, o.Goal), smt.Not(o.Goal))...)
 			if o.Info != "" && oc.Info == "" {
 				oc.Info = o.Info
 			}
@@ -268,6 +287,7 @@ func solveGroup(name string, g []*sym.Oblig, opt DischargeOpts) Outcome {
 		}
 		seen[c.ID()] = true
 		disj = append(disj, c)
+		slim = append(slim, cs)
 		oc.Size += c.Size()
 	}
 	if o0.Cover {
@@ -300,23 +320,32 @@ func solveGroup(name string, g []*sym.Oblig, opt DischargeOpts) Outcome {
 		oc.Status, oc.Backend = "discharged", "simplifier"
 		return oc
 	}
-	// split very large disjunctions
-	chunks := [][]*smt.Term{disj}
-	if len(disj) > 24 || oc.Size > 200000 {
-		chunks = nil
-		for i := 0; i < len(disj); i += 12 {
-			j := i + 12
-			if j > len(disj) {
-				j = len(disj)
-			}
-			chunks = append(chunks, disj[i:j])
+	chunk := func(d []*smt.Term) [][]*smt.Term {
+		if len(d) <= 24 && oc.Size <= 200000 {
+			return [][]*smt.Term{d}
 		}
+		var out [][]*smt.Term
+		for i := 0; i < len(d); i += 12 {
+			j := i + 12
+			if j > len(d) {
+				j = len(d)
+			}
+			out = append(out, d[i:j])
+		}
+		return out
 	}
 	oc.Status = "discharged"
 	backends := map[string]bool{}
-	for _, ch := range chunks {
+	full := chunk(disj)
+	for ci, ch := range chunk(slim) {
+		// stage 1: assumptions restricted to the goal's cone of influence (only an unsat answer is trusted)
 		r := smt.Solve([]*smt.Term{smt.Or(ch...)}, smt.Options{Timeout: opt.Timeout, Seed: opt.Seed, TwoUnsat: opt.TwoUnsat})
 		oc.Seconds += r.Seconds
+		if r.Status != "unsat" {
+			// stage 2: all assumptions of the path
+			r = smt.Solve([]*smt.Term{smt.Or(full[ci]...)}, smt.Options{Timeout: opt.Timeout, Seed: opt.Seed, TwoUnsat: opt.TwoUnsat})
+			oc.Seconds += r.Seconds
+		}
 		backends[r.Solver] = true
 		switch r.Status {
 		case "unsat":
@@ -342,4 +371,59 @@ func solveGroup(name string, g []*sym.Oblig, opt DischargeOpts) Outcome {
 	sort.Strings(bs)
 	oc.Backend = strings.Join(bs, ",")
 	return oc
+}
+
+// relevant keeps the assumptions in the cone of influence of the goal (those sharing variables, transitively).
+// Dropping assumptions is sound for validity checking.
+func relevant(assumes []*smt.Term, goal *smt.Term) []*smt.Term {
+	if len(assumes) < 4 {
+		return append([]*smt.Term(nil), assumes...)
+	}
+	varsOf := func(t *smt.Term) map[string]bool {
+		vs, ufs := smt.CollectVars([]*smt.Term{t})
+		m := map[string]bool{}
+		for _, v := range vs {
+			m[v.Name] = true
+		}
+		for n := range ufs {
+			m["uf:"+n] = true
+		}
+		return m
+	}
+	sets := make([]map[string]bool, len(assumes))
+	for i, a := range assumes {
+		sets[i] = varsOf(a)
+	}
+	live := varsOf(goal)
+	used := make([]bool, len(assumes))
+	changed := true
+	for changed {
+		changed = false
+		for i := range assumes {
+			if used[i] {
+				continue
+			}
+			hit := len(sets[i]) == 0
+			for v := range sets[i] {
+				if live[v] {
+					hit = true
+					break
+				}
+			}
+			if hit {
+				used[i] = true
+				changed = true
+				for v := range sets[i] {
+					live[v] = true
+				}
+			}
+		}
+	}
+	var out []*smt.Term
+	for i, a := range assumes {
+		if used[i] {
+			out = append(out, a)
+		}
+	}
+	return out
 }
